@@ -26,7 +26,8 @@ COMPILER_REPLAYS = {
     "u_strlit": ["replay/c11/run.sh"],
     "u_dynvis": ["replay/c17/run.sh"],
     "u_dceblk": ["replay/c09/run.sh"],
-    "u_rows": ["replay/c06/run.sh"],
+    "u_rows": ["replay/c06/run.sh", "replay/c06/struct_fields.sh"],
+    "u_loadpkg": ["replay/c16/run.sh"],
 }
 
 
